@@ -272,7 +272,7 @@ def _src_path(h):
 def compile_goto(ctx, h, outdir):
     gb = os.path.join(outdir, h.name + ".gb")
     srcs = [_src_path(h)] + [s if os.path.isabs(s) else os.path.join(REPO, s) for s in h.extra_srcs]
-    cmd = ["goto-cc", "-o", gb] + srcs + repo_defines() + h.defines + h.includes + repo_includes() + \
+    cmd = ["goto-cc", "-o", gb] + srcs + repo_defines() + h.defines + [i.replace("@OUTDIR@", outdir) for i in h.includes] + repo_includes() + \
           ["-I" + outdir]
     rc, out, err, wall, _ = sh(cmd, timeout=300)
     if rc != 0:
@@ -502,7 +502,7 @@ def write_replay(ctx, h, vals, tag):
     inc = ["-I" + gen_dst] if os.path.isdir(gen_dst) else []
     cc = ["gcc", "-g", "-O0", "-w", "-std=gnu99", "-fsanitize=address,undefined",
           "-fno-sanitize=signed-integer-overflow,alignment", "-fno-sanitize-recover=undefined",
-          "-DVF_REPLAY=1"] + repo_defines() + h.defines + h.includes + repo_includes() + inc
+          "-DVF_REPLAY=1"] + repo_defines() + h.defines + [i for i in h.includes if "@OUTDIR@" not in i] + repo_includes() + inc
     extra = [s if os.path.isabs(s) else os.path.join(REPO, s) for s in h.extra_srcs]
     with open(path, "w") as f:
         f.write("/* replay of a CBMC counterexample: property %s harness %s\n" % (ctx.pid, h.name))
